@@ -686,7 +686,11 @@ func (o *opCtx) exec(kind, k int) string {
 				e := ref.Serialize(o.base.P[rng.Intn(len(o.base.P))])
 				out = append(out, e[:]...)
 			}
-			sc := ref.LE32(randBig(rng, ref.R))
+			sv := randBig(rng, ref.R)
+			if rng.Intn(2) == 0 {
+				sv = randScalar(rng)
+			}
+			sc := ref.LE32(sv)
 			return append(out, sc[:]...)
 		}
 		b1, b2 := mk(), mk()
@@ -702,6 +706,9 @@ func (o *opCtx) exec(kind, k int) string {
 		scratch.Write(&w2)
 		d.add(w1.Bytes())
 		d.add(w2.Bytes())
+		if !bytes.Equal(w2.Bytes(), b2) {
+			o.modified("wrong-result/MultiProof.Read/used-receiver", "a proof read into an object that already held another proof does not serialise to the bytes it was read from")
+		}
 		if !bytes.Equal(w0.Bytes(), w1.Bytes()) || !bytes.Equal(w1.Bytes(), b1) {
 			o.modified("input-modified/MultiProof.Read/earlier-copy", "reading a second proof into a proof object changed a copy of the object made before the call")
 		}
